@@ -373,11 +373,13 @@ def eval_case(ctx: Ctx, c: dict):
         cls, z, e = guarded(lambda: dns.zone.from_text(t, **kw), zone_level=True)
         if report(ctx, "zone.from_text", cls, rep, f"zone.from_text({t!r}, {kw}) raised {e!r}"):
             return
-        if cls == "SyntaxError" and t.strip() and not isinstance(e, dns.exception.UnexpectedEnd):
-            # zone files add file and line
-            msg = str(e)
-            if ":" not in msg:
-                ctx.count("zone.from_text.syntax-without-line")
+        if cls == "SyntaxError":
+            # "zone files adding file and line"
+            import re
+            if not re.match(r"^[^:\n]+:\d+: ", str(e)):
+                ctx.fail("C04/zone.from_text/syntax-error-without-file-and-line", f"zone.from_text({t!r}) raised a syntax error without file:line: {e!r}", rep)
+            else:
+                ctx.count("zone.from_text.syntax-with-file-line")
         if z is not None:
             c1, _, e1 = guarded(lambda: z.to_text(), zone_level=True)
             report(ctx, "zone.to_text", c1, rep, f"to_text of zone parsed from {t!r} raised {e1!r}")
@@ -478,6 +480,21 @@ def generate(ctx: Ctx, scale: int, rng):
         c = {"kind": "rdata.wire", "rdclass": rc, "rdtype": rt, "wire": w.hex(), "origin": rng.below(2)}
         ctx.case(("rw", rc, rt, w, c["origin"]), sample=c)
         eval_case(ctx, c)
+    # bounded-exhaustive single-octet sweep: every octet of every sample record forced to boundary values
+    # (drives every fixed-width field to its extremes, every length prefix to 0/255, every label type)
+    sweep_vals = [0x00, 0xFF] if ctx.tier == "quick" else [0x00, 0xFF, 0x80, 0x10, 0x7F, 0x01, 0x3F, 0x40, 0xC0]
+    if scale <= 20:
+        for s in SAMPLES:
+            w0 = bytes.fromhex(s["wire"])
+            for i in range(len(w0)):
+                for v in sweep_vals:
+                    if w0[i] == v:
+                        continue
+                    w = w0[:i] + bytes([v]) + w0[i + 1:]
+                    c = {"kind": "rdata.wire", "rdclass": s["rdclass"], "rdtype": s["rdtype"], "wire": w.hex(), "origin": 0}
+                    ctx.case(("rw", s["rdclass"], s["rdtype"], w, 0))
+                    eval_case(ctx, c)
+                    ctx.count("sweep.rdata.wire")
     otypes = [int(o) for o in dns.edns.OptionType] + [0, 4, 14, 16, 17, 65001]
     for _ in range(n(800)):
         c = {"kind": "edns.wire", "otype": rng.choice(otypes), "wire": rng.bytes(rng.choice([0, 1, 2, 3, 4, 5, 8, 9, 12, 20])).hex()}
